@@ -618,7 +618,7 @@ Definition init (c : cfg) (kind : N) (args : list N) (data : list (list N)) : ds
   | _ => (DNone, RPanic, SAny)
   end.
 
-Definition step (c : cfg) (st : dstate) (code : N) (args : list N) (data : list (list N))
+Definition step1 (c : cfg) (st : dstate) (code : N) (args : list N) (data : list (list N))
   : dstate * rv * sres :=
   if 1000 <=? code then init c (code - 1000) args data else
   if (match st with DWrap => true | _ => false end) then
@@ -667,4 +667,52 @@ Definition step (c : cfg) (st : dstate) (code : N) (args : list N) (data : list 
                SExact (if a0 <=? bv_len m then RNum (if bit then a0 else 0) else RNone))
       | _ => (st, RPanic, SAny)
       end
+  end.
+
+(* The provided methods of `Iterator` that no iterator of the crate overrides (the translator checks that):
+   `nth(n)` = up to n calls of next() that stop at the first None, then one more next(); `count()` = the number
+   of Some answers before the first None; `last()` = the last Some answer.  They are executed on the model (and
+   on the spec) through the `next` operation `nx` of the iterator at hand (41, 69 or 31). *)
+Fixpoint nth_default (c : cfg) (st : dstate) (nx : N) (fuel : nat) : dstate * rv * sres :=
+  let '(st', r, sp) := step1 c st nx [] [] in
+  match fuel with
+  | O => (st', r, sp)
+  | S f => match r with
+           | RNone | RPanic => (st', r, sp)
+           | _ => nth_default c st' nx f
+           end
+  end.
+
+Definition sres_eval (sp : sres) (r : rv) : option rv :=
+  match sp with SExact x => Some x | SPred p => if p r then Some r else None | SAny => Some r end.
+
+(* drain: returns (state, model count, model last, spec agreed so far) *)
+Fixpoint drain (c : cfg) (st : dstate) (nx : N) (fuel : nat) (cnt : N) (last : rv) (ok : bool)
+  : dstate * res (N * rv) * bool :=
+  match fuel with
+  | O => (st, Panic, ok)
+  | S f =>
+      let '(st', r, sp) := step1 c st nx [] [] in
+      let ok' := ok && match sp with SExact x => match x, r with
+                                                  | RNone, RNone => true | RNum a, RNum b => a =? b
+                                                  | RBool a, RBool b => Bool.eqb a b | _, _ => false end
+                                | _ => true end in
+      match r with
+      | RNone => (st', Ok (cnt, last), ok')
+      | RPanic => (st', Panic, ok')
+      | _ => drain c st' nx f (cnt + 1) r ok'
+      end
+  end.
+
+Definition step (c : cfg) (st : dstate) (code : N) (args : list N) (data : list (list N))
+  : dstate * rv * sres :=
+  match code with
+  | 43 => nth_default c st (arg args 1) (N.to_nat (N.min (arg args 0) 200000))
+  | 46 | 47 =>
+      (* the model and the spec agree on every element (checked while draining), so the model's count / last
+         is the specified one; a disagreement makes the expected answer unsatisfiable *)
+      let '(st', r, ok) := drain c st (arg args 0) (N.to_nat 200001) 0 RNone true in
+      let m := match r with Panic => RPanic | Ok (n, l) => if code =? 46 then RNum n else l end in
+      (st', m, if ok then SExact m else SPred (fun _ => false))
+  | _ => step1 c st code args data
   end.
